@@ -111,7 +111,9 @@ def handleStack (case : Nat) (j : Json) : IO Unit := do
   let got : Option Olla.Spec.C02.Got := if ollaErr || cErr == "eof-before-status" then none else some { status := cStatus, headers := cHdrs, body := cBody }
   let noMix := Olla.Spec.C02.singleAttempt said order got
   let honest := servedBy.isSome || cStatus < 200 || cStatus ≥ 300
-  let sameReq := jbool (jget impl "same_req") || order.length ≤ 1
+  -- what every backend received is what the client sent (method, path, query, body); judged once a second candidate was
+  -- tried — also when the first one refused the connection or was skipped and so saw nothing to compare with
+  let sameReq := jbool (jget impl "same_req") || dispatched.length ≤ 1
   let backendOnce := eps.all (fun e => jnat (jget (jget impl "attempts") e.name) ≤ 1)
   let spec := holds o && followupAvoidsFailed o follow && noMix && honest && sameReq && backendOnce
   let sig := if !atMostOnce o || !backendOnce then "candidate-tried-twice" else if !reachableMeansServed o then "reachable-backend-but-request-failed"
